@@ -31,7 +31,9 @@ EXPLANATION = (
     ' '
     'R-C15.9 (= R-C17.7) a generator of statement batches is iterated once in run_sql.'
     ' '
-    'R-C15.11 AppSignature.is_empty() depends on the model signatures only.')
+    'R-C15.11 AppSignature.is_empty() depends on the model signatures only.'
+    ' '
+    'R-C15.12 the evolve command queues the purge after every app task.')
 NOT_DECIDED = (
     'Non-interference with other apps\' tables and rows for every project '
     'layout (prefix table names, shared m2m tables).')
@@ -621,7 +623,44 @@ def r11_app_entry_empty_means_no_models(ctx):
                     key='is-empty-not-models-only')
 
 
+def r12_purge_queued_after_app_tasks(ctx):
+    """The evolver prepares and executes task classes in first-queued order.
+    The purge task removes the stale apps from the very signature the app
+    upgrades build their mock models from, and its DROP TABLEs are committed
+    in a scope of their own.  The evolve command must therefore queue the
+    purge *after* the app tasks: no app-queueing call is reachable from the
+    purge call."""
+    ctx.rule('R-C15.12')
+    p = ctx.program
+    f = p.func('management.commands.evolve', 'Command._add_tasks')
+    g = ctx.cfg(f)
+    purge = [n for n in g.nodes if any(
+        call_name(c) == 'queue_purge_old_apps' for c in n.calls())]
+    apps = [n for n in g.nodes if any(
+        call_name(c) in ('queue_evolve_app', 'queue_evolve_all_apps')
+        for c in n.calls())]
+    ctx.floor('queueing calls in Command._add_tasks', len(purge) + len(apps),
+              3)
+    bad = None
+    for pn in purge:
+        r = g.reachable([s_ for s_, _l in pn.succ], follow_exc=False)
+        for an in apps:
+            if an.id in r:
+                bad = (pn, an)
+    if bad:
+        ctx.finding(f, bad[0].ast, 'the purge is queued before the app '
+                    'upgrades: stale apps are stripped from the signature '
+                    'before the upgrades resolve relations to them (evolve '
+                    '--hint --purge aborts), and their tables are dropped '
+                    'and committed even when a later upgrade fails and the '
+                    'signature is never saved',
+                    key='purge-queued-before-app-tasks')
+    else:
+        ctx.ok(f, 'the purge is queued after every app task')
+
+
 def run(ctx):
+    r12_purge_queued_after_app_tasks(ctx)
     r11_app_entry_empty_means_no_models(ctx)
     r10_deletions_lowered_from_one_snapshot(ctx)
     r9_statement_generator_iterated_once(ctx)
